@@ -94,6 +94,20 @@ func solveObl(vc *VC, o *Obl, dir string, tier string, seed int, idx int) {
 		quickT, slowT = 20, 90
 	}
 	ctx := context.Background()
+	if o.MustSat {
+		// vacuity probe: quantifier-free script, one solver, short budget; undecided is acceptable
+		r := runSolver(ctx, solvers[0], file, quickT, seed)
+		if r.result != "sat" && r.result != "unsat" {
+			r2 := runSolver(ctx, solvers[1], file, quickT, seed)
+			o.Time += r2.time
+			if r2.result == "sat" || r2.result == "unsat" {
+				r = r2
+			}
+		}
+		o.Time += r.time
+		o.Result, o.Solver, o.Output = r.result, r.solver, trunc(r.out, 2000)
+		return
+	}
 	type tagged struct {
 		solveResult
 		na bool
